@@ -549,6 +549,10 @@ fn branch_state_programs() -> Vec<(String, Vec<f64>, String)> {
     // the then-branch holds more state than the else-branch (the larger cursor move must reach the epilogue)
     v.push(("fn cnt(){ self + 1.0 }\nfn gate(c){\n  if (c) { cnt() } else { 0.0 }\n}\nfn dsp(){\n  gate(1.0)\n}\n".to_string(), vec![1.0, 2.0, 3.0, 4.0], "stateful then-branch, stateless else-branch, then path".to_string()));
     v.push(("fn cnt(){ self + 1.0 }\nfn gate(c){\n  if (c) { cnt() + cnt() } else { cnt() }\n}\nfn dsp(){\n  let a = gate(0.0)\n  let b = cnt()\n  a + b*100.0\n}\n".to_string(), vec![101.0, 202.0, 303.0, 404.0], "then-branch larger than else-branch, else path, a counter behind the call".to_string()));
+    // the CONDITION of an `if` owns a cell (seed C05m): both branches start behind it
+    v.push(("fn counter(){ self+1.0 }\nfn other(){ self+10.0 }\nfn dsp(){\n  if (counter() > 3.0) { 0.0 } else { other() }\n}\n".to_string(), vec![10.0, 20.0, 30.0, 0.0, 0.0, 0.0], "stateful condition, stateful else-branch".to_string()));
+    v.push(("fn counter(){ self+1.0 }\nfn other(){ self+10.0 }\nfn dsp(){\n  if (counter() > 3.0) { other() } else { 0.0 }\n}\n".to_string(), vec![0.0, 0.0, 0.0, 10.0, 20.0, 30.0], "stateful condition, stateful then-branch".to_string()));
+    v.push(("fn counter(){ self+1.0 }\nfn other(){ self+10.0 }\nfn gate(){\n  let r = if (counter() > 2.0) { 1.0 } else { 0.0 }\n  self + r\n}\nfn dsp(){\n  let g = gate()\n  let t = other()\n  g + t*1000.0\n}\n".to_string(), vec![10000.0, 20000.0, 30001.0, 40002.0, 50003.0], "stateful condition after `self`, another cell behind the function".to_string()));
     // stateful global initialisers (finding F26): their cells live in the global storage, which execute_main has to size
     v.push(("let g = mem(1.0)\nfn dsp(){\n  g + 5.0\n}\n".to_string(), vec![5.0, 5.0, 5.0, 5.0], "mem in a global initialiser".to_string()));
     v.push(("let g = delay(64.0, 3.0, 1.0)\nfn dsp(){\n  g + 2.0\n}\n".to_string(), vec![2.0, 2.0, 2.0, 2.0], "delay with a 66-word cell in a global initialiser".to_string()));
@@ -1223,6 +1227,40 @@ fn main() {
             println!("FAILS C17[a member not declared pub cannot be referenced from outside its module] {desc}: the program is accepted ({:?})", run_vm(src, 1));
         } else {
             println!("HOLDS rejected: {errs:?}");
+        }
+        return;
+    }
+    if args.get(1).map(|s| s.as_str()) == Some("state-misc") {
+        // known findings F31 / F32 (C05), side observations of seeding agent C05m confirmed with the real back ends.
+        // Every program runs in a child process (an access outside the storage may kill the VM).
+        let progs: [(&str, &[f64], &str); 2] = [
+            ("fn counter(){ self+1.0 }\nfn foo(x = counter(), y = 200.0){ x+y }\nfn dsp(){\n  foo({..})\n}\n", &[201.0, 202.0, 203.0, 204.0],
+             "a stateful DEFAULT-ARGUMENT expression: its cell is in no published layout"),
+            ("fn counter(){ self+1.0 }\nfn other(){ self+10.0 }\nfn dsp(){\n  let fs = [counter, other]\n  let f = fs[0]\n  let a = other()\n  let b = f()\n  let c = other()\n  a + b*1000.0 + c*1000000.0\n}\n", &[10001010.0, 20001020.0, 30001030.0, 40001040.0],
+             "a stateful function taken out of an array and called"),
+        ];
+        let idx: usize = args.get(2).and_then(|s| s.parse().ok()).unwrap_or(0).min(progs.len() - 1);
+        let (src, expect, desc) = progs[idx];
+        if let Some(be) = args.get(3) {
+            let r = if be == "wasm" { run_wasm(src, expect.len()) } else { run_vm(src, expect.len()) };
+            match r { Ok(v) => println!("OUT {v:?}"), Err(e) => println!("ERR {e}") }
+            return;
+        }
+        let exe = std::env::current_exe().unwrap();
+        let mut outs = vec![];
+        for be in ["vm", "wasm"] {
+            let out = std::process::Command::new(&exe).args(["state-misc", &idx.to_string(), be]).output().unwrap();
+            if !out.status.success() {
+                println!("FAILS C05[every read or write of state falls inside the storage sized from the layout] {desc}: the {be} process died ({})", out.status);
+                return;
+            }
+            outs.push(String::from_utf8_lossy(&out.stdout).trim().to_string());
+        }
+        let want = format!("OUT {expect:?}");
+        if outs[0] != want || outs[1] != want {
+            println!("FAILS C05[each cell at the offset the layout assigns to it; state identical on VM and WASM] {desc}: vm `{}` wasm `{}` expected {expect:?}", outs[0], outs[1]);
+        } else {
+            println!("HOLDS");
         }
         return;
     }
